@@ -361,6 +361,15 @@ func ruleV4Filter(c *Ctx, rule string) {
 		if pe, _ := histFact(e.St, "nil", regexp.MustCompile(`^net\.InterfaceByIndex@t\d+\(.*\)#1$`)); pe == 0 {
 			continue
 		}
+		// permitted drop: neither a bound interface nor a receiving interface is known
+		{
+			L, _ := histEq(e.St, regexp.MustCompile(`^\$0\.Interface\.Index$`), "0")
+			Onn, _ := histFact(e.St, "nil", regexp.MustCompile(`^\$2$`))
+			Oidx, _ := histEq(e.St, regexp.MustCompile(`^\$2\.IfIndex$`), "0")
+			if L == 1 && or3(Onn, Oidx) == 1 {
+				continue
+			}
+		}
 		badExit = fmt.Sprintf("return at %s without sending although the filter atoms do not justify a drop (parse-ok=%d opcode=%d reply-built=%d type=%d resp≠nil=%d)", c.P.InstrPos(e.In), p, o, r, m, nn)
 		bst = e.St
 		break
